@@ -324,6 +324,10 @@ func TestVerifC23(t *testing.T) {
 	maxset := vlib.Pick(r, 3, 4)
 	orders := vlib.Pick(r, []string{"fwd"}, []string{"fwd", "rev"})
 
+	if _, replaying := r.Replaying(); replaying {
+		maxset, orders = 4, []string{"fwd", "rev"} // the recorded case may come from the thorough tier
+	}
+
 	r.Set("operations", len(env.ops))
 	r.Set("max_set_size", maxset)
 	r.Set("heights", "0..5")
